@@ -125,11 +125,12 @@ def run(db, rep, feat, tier):
     ok = len(pf) == 1 and is_fa(tm.operand(pf[0][1]["args"][1]))
     r.decide(ok, "enqueue|function_address", where(pf[0][0]) if pf else db.where(body), "the function address must be enqueued first")
     pushed = set()
-    for c in db.closures_of(TFE):
+    # the manual-edge ends are enqueued in a closure (for_each) or in a plain loop of the function itself
+    for c in [TFE] + list(db.closures_of(TFE)):
         cb = db.mir.get(c)
         if cb is None:
             continue
-        ctm = terms_of(db, c, {})
+        ctm = tm if c == TFE else terms_of(db, c, {})
         for i, t in calls(cb, "VecDeque::<T, A>::push_back"):
             a = ctm.operand(t["args"][1])
             for end in ("head_address", "tail_address"):
@@ -140,8 +141,10 @@ def run(db, rep, feat, tier):
     pops = calls(body, "VecDeque::<T, A>::pop_front")
     heads = calls(body, "VecDeque::<T, A>::is_empty")
     gets = calls(body, "TranslationMemory::get_bytes")
-    rep.anchor(len(pops) == 1 and len(heads) >= 1 and len(gets) == 1, "work-list loop: pop_front, is_empty, get_bytes")
-    head = heads[0][0]
+    rep.anchor(len(pops) == 1 and len(gets) == 1, "work-list loop: pop_front, get_bytes")
+    # the loop head: the emptiness test when there is one, otherwise the dequeue itself (`while let Some(a) = q.pop_front()`)
+    head = heads[0][0] if heads else pops[0][0]
+    rep.anchor(head in cfg.reachable(gets[0][0]), "the work-list loop closes (the loop head is reachable from the fetch)")
     results_inserts = [i for i, t in calls(body, "BTreeMap::<K, V, A>::insert") if recv(t, "translation_results")]
     reach = cfg.reachable(gets[0][0], avoid=results_inserts)
     r.decide(len(results_inserts) >= 2 and head not in reach, "dequeued_gets_result", where(gets[0][0]),
@@ -150,7 +153,8 @@ def run(db, rep, feat, tier):
     r.decide(key_ok, "result_keyed_by_dequeued_address", where(results_inserts[0]) if results_inserts else db.where(body),
              "a translation result must be recorded under the dequeued address")
     # successors enqueued
-    pbs = calls(body, "VecDeque::<T, A>::push_back")
+    pbs = [(i, t) for i, t in calls(body, "VecDeque::<T, A>::push_back") if not from_call(tm.operand(t["args"][1]), "ManualEdge::head_address")
+           and not from_call(tm.operand(t["args"][1]), "ManualEdge::tail_address")]
     contains = calls(body, "VecDeque::<T, A>::contains")
     nexts = [(i, t) for i, t in calls(body, "Iterator>::next") if from_call(tm.operand(t["args"][0]), "BlockTranslationResult::successors")]
     rep.anchor(len(pbs) == 1 and len(contains) == 1 and len(nexts) >= 2, "successor loop: next, contains, push_back")
